@@ -37,16 +37,15 @@ TolRel == 1000            \* 1e-9 in units of 1e-12
 
 (* ---- "A successful informed sample for cost bound c lies within the space bounds ..." *)
 SuccessInBounds(r) == \A i \in 1..Len(r.ret) : r.ret[i] = 1 => r.inb[i] = 1
-(* ---- "... and has a heuristic solution cost strictly below c ..."  The bound must lie  *)
-(* above the focal distance (the property's quantifier); degen = 1 marks replays below it *)
-SuccessBelowBound(r) == r.degen = 0 => \A i \in 1..Len(r.ret) : r.ret[i] = 1 => r.lt[i] = 1 /\ r.xlt[i] = 1
+(* ---- "... and has a heuristic solution cost strictly below c ..."                      *)
+SuccessBelowBound(r) == \A i \in 1..Len(r.ret) : r.ret[i] = 1 => r.lt[i] = 1 /\ r.xlt[i] = 1
 (* ---- "... (and not below the lower bound when one is given)."                          *)
 SuccessNotBelowLowerBound(r) == \A i \in 1..Len(r.ret) : r.ret[i] = 1 => r.ge[i] = 1 /\ r.xge[i] = 1
 (* the cost the sampler reports is the heuristic the property talks about                 *)
 ReportedCostIsFocalSum(r) == \A i \in 1..Len(r.ret) : r.agree[i] = 1
 SampleWellFormed(r) == /\ Len(r.ret) > 0 /\ SameLen(r, {"inb", "lt", "ge", "xlt", "xge", "agree"})
                        /\ Flags(r.ret) /\ Flags(r.inb) /\ Flags(r.lt) /\ Flags(r.ge) /\ Flags(r.xlt)
-                       /\ Flags(r.xge) /\ Flags(r.agree) /\ r.degen \in {0, 1}
+                       /\ Flags(r.xge) /\ Flags(r.agree)
 SampleFailed(r) ==
     IF ~SampleWellFormed(r) THEN {"Malformed"}
     ELSE {c \in {"SuccessInBounds", "SuccessBelowBound", "SuccessNotBelowLowerBound", "ReportedCostIsFocalSum"} :
